@@ -29,7 +29,8 @@ def main():
     assert r.returncode == 0, r.stderr
     os.makedirs(os.path.join(wt, 'seedx'))
     shutil.copy(demo, os.path.join(wt, 'seedx', 'demo.py'))
-    r0 = sh(['/venv/bin/python', 'seedx/demo.py'], cwd=wt, timeout=600)
+    env = dict(os.environ, PYTHONPATH=wt)
+    r0 = sh(['/venv/bin/python', 'seedx/demo.py'], cwd=wt, timeout=600, env=env)
     res['demo_clean'] = r0.returncode
     ra = sh(['git', 'apply', patch], cwd=wt)
     res['applies'] = ra.returncode == 0
@@ -38,7 +39,7 @@ def main():
     else:
       touched = sh('git diff --name-only', cwd=wt).stdout.split()
       res['touched'] = touched
-      r1 = sh(['/venv/bin/python', 'seedx/demo.py'], cwd=wt, timeout=600)
+      r1 = sh(['/venv/bin/python', 'seedx/demo.py'], cwd=wt, timeout=600, env=env)
       res['demo_patched'] = r1.returncode
       res['demo_out'] = (r1.stdout + r1.stderr)[-400:]
       rb = sh(['/verif/tools/baseline.py', wt], timeout=1200)
